@@ -9,6 +9,7 @@ import NormModel.Model.Lexer
 import NormModel.Model.Engine
 import NormModel.Model.Header
 import NormModel.Model.Guard
+import NormModel.Model.Limits
 import NormModel.Generated.HeaderRegex
 open Lean Norm
 
@@ -29,6 +30,18 @@ def headerHandle (op : String) (j : Json) : Except String Json := do
       pure (⟨isC, v⟩ : HEvent))
     let st := headerRun (searchNfa Generated.headerRegex) evs
     pure (Json.mkObj [("errors", Json.num (st.errors : JsonNumber)), ("parsed", Json.bool st.parsed)])
+  | "linelen" =>
+    let toks ← (← (j.getObjValD "toks").getArr?).toList.mapM (fun e => do
+      let a ← e.getArr?
+      pure ((← a[0]!.getNat?), (← a[1]!.getNat?)))
+    pure (Json.mkObj [("lines", Json.arr ((checkLineLen toks []).map (fun (x : Nat) => Json.num (x : JsonNumber))).toArray)])
+  | "commentlen" =>
+    let col ← (j.getObjValD "col").getNat?
+    let lens ← (← (j.getObjValD "lens").getArr?).toList.mapM (·.getNat?)
+    let block ← (j.getObjValD "block").getBool?
+    let out : List Nat := if block then blockCommentTooLong col lens
+      else (if lineCommentTooLong col (lens.headD 0) then [0] else [])
+    pure (Json.mkObj [("lines", Json.arr (out.map (fun (x : Nat) => Json.num (x : JsonNumber))).toArray)])
   | "guard" =>
     let chars := fun (k : String) => do
       let a ← (j.getObjValD k).getArr?
